@@ -172,6 +172,9 @@ func genCfg(r *wire.Rng, wide bool) rawCfg {
 		c.OwnerGroupsInclude = joinList(r, pickSome(r, groupPool, 3))
 	case 2, 3:
 		c.OwnerGroupsExclude = joinList(r, pickSome(r, groupPool, 3))
+	case 5: // both lists: the exclude list must be ignored unless include is "*"
+		c.OwnerGroupsInclude = joinList(r, pickSome(r, groupPool, 3))
+		c.OwnerGroupsExclude = joinList(r, pickSome(r, groupPool, 3))
 	case 4:
 		if r.Chance(1, 8) { // too many groups: Validate refuses
 			var g []string
@@ -208,6 +211,13 @@ func genCfg(r *wire.Rng, wide bool) rawCfg {
 				c.DNSV6 = pickSome(r, dns6Pool, 2)
 			}
 		}
+		if !c.RedirectDNS && r.Chance(1, 6) { // DNS flags without REDIRECT_DNS: must have no effect
+			c.CaptureAllDNS = r.Chance(1, 2)
+			c.DNSV4 = pickSome(r, dns4Pool, 2)
+			if v6 {
+				c.DNSV6 = pickSome(r, dns6Pool, 1)
+			}
+		}
 		// malformed values
 		if r.Chance(1, 40) {
 			c.OutExclude = "*"
@@ -234,6 +244,10 @@ func gen(stream string, seed uint64, n int, path string) {
 		wide := stream != "rules4" && stream != "packets4" && i%3 != 0
 		c := genCfg(r, wide)
 		out.Line("case", strconv.Itoa(i), stream)
+		if stream == "env" {
+			genEnvCase(r, c, out)
+			continue
+		}
 		out.Line(c.tokens()...)
 		switch stream {
 		case "rules":
@@ -251,6 +265,44 @@ func gen(stream string, seed uint64, n int, path string) {
 		default:
 			genPackets(r, c, out)
 		}
+	}
+}
+
+// genEnvCase: the configuration goes through DefaultConfig + real flags + FillConfigFromEnvironment.
+// Environment-only fields use `~` for "variable unset"; flag fields use `~` for "flag absent".
+func genEnvCase(r *wire.Rng, c rawCfg, out *wire.Out) {
+	if r.Chance(1, 3) {
+		c.ProxyGID = "" // defaults to the (possibly defaulted) UID
+	}
+	if r.Chance(1, 4) {
+		c.ProxyUID = "" // defaults to ENVOY_USER's uid / 1337
+	}
+	for _, f := range []*string{&c.ProxyPort, &c.InboundCapturePort, &c.InboundTunnelPort, &c.TProxyMark, &c.Mode} {
+		if r.Chance(1, 2) {
+			*f = ""
+		}
+	}
+	if c.OwnerGroupsInclude == "*" && r.Chance(1, 2) {
+		c.OwnerGroupsInclude = "" // unset
+	}
+	if c.LoCidr == "127.0.0.1/32" && r.Chance(1, 2) {
+		c.LoCidr = ""
+	}
+	if r.Chance(1, 3) {
+		c.RedirectDNS = true
+		c.CaptureAllDNS = r.Chance(1, 3)
+	}
+	c.DNSV4, c.DNSV6 = nil, nil // come from /etc/resolv.conf
+	t := c.tokens()
+	t[0] = "envcfg"
+	t = append(t, wire.Enc(envoyUID()), wire.EncList(resolvServers()))
+	out.Line(t...)
+	res, _ := runRealEnv(c, c.OwnerGroupsInclude != "", c.OwnerGroupsExclude != "", c.LoCidr != "")
+	for k := 0; k <= len(res.v4); k++ {
+		out.Line("r", "4", strconv.Itoa(k))
+	}
+	for k := 0; k <= len(res.v6); k++ {
+		out.Line("r", "6", strconv.Itoa(k))
 	}
 }
 
@@ -276,7 +328,26 @@ func execOps(stream, in, outPath string) {
 			cur = runReal(c)
 			rs = nil
 			if cur.status == "ok" {
-				out.Line("ok", strconv.Itoa(len(cur.v4)), strconv.Itoa(len(cur.v6)))
+				out.Line(cur.okLine()...)
+			} else {
+				out.Line(cur.status)
+			}
+		case "envcfg":
+			if len(t) != 27 {
+				cur, rs = compiled{}, nil
+				out.Line("bad-op")
+				break
+			}
+			c, ok := rawFromTokens(append([]string{"cfg"}, t[1:25]...))
+			if !ok {
+				cur, rs = compiled{}, nil
+				out.Line("bad-op")
+				break
+			}
+			cur, curCfg = runRealEnv(c, t[10] != "~", t[11] != "~", t[24] != "~")
+			rs = nil
+			if cur.status == "ok" {
+				out.Line(cur.okLine()...)
 			} else {
 				out.Line(cur.status)
 			}
